@@ -202,6 +202,12 @@ def r1_agreement(rep, ctx):
                 rep.bad("C02.R1", "_ConvertWithExp:delegation", "delegates with %s instead of Convert(quantity type, source unit, target unit, ...)" % show(a_, 120), node=r, fn=fn)
                 continue
             if sh is None:
+                abs_exp = [x for x in walk(a_) if x[0] == "call" and x[1] == ("name", "abs") and len(x[2]) == 1 and x[2][0] in (FROM_E, TO_E)]
+                if abs_exp and any(x[0] == "call" and x[1] in POW for x in walk(a_)):
+                    rep.bad("C02.R1", "_ConvertWithExp:root-convert-power", "the root / power is taken with the absolute value of the exponent (%s): a unit with a negative exponent (1/ft -> 1/m) is converted in the wrong direction" % show(abs_exp[0], 60), node=r, fn=fn)
+                    seen.setdefault("power", []).append(r)
+                    seen.setdefault("neg-power", []).append(r)
+                    continue
                 if a_[0] == "call" and a_[1] in POW and len(a_[2]) == 2 and a_[2][1] == TO_E and any(b_[0] == "op" and b_[1] == "USub" for b_ in alternatives(a_[2][0])):
                     rep.bad("C02.R1", "_ConvertWithExp:sign", "the sign of a negative value is put back *before* raising to the target exponent (%s): an even exponent loses it" % show(a_, 100), node=r, fn=fn)
                     seen.setdefault("power", []).append(r)
